@@ -1364,6 +1364,7 @@ def run_r2(repo: Repo, res: Result) -> None:
     view = inline_view(repo, f, T, allow=_allow_r2)
     fn = Fn(repo, view)
     co = Collections(fn)
+    _routing(repo, res, view)
     off = 0 if f.is_staticmethod else 1
     modules_p, arch_p = view.param_names[off], view.param_names[off + 1]
     base = f"{f.relpath}::{f.qualname}::"
@@ -1436,6 +1437,98 @@ def run_r2(repo: Repo, res: Result) -> None:
         res.undecide("C11.R2", base + "no-match raises", why, where(view, raises[0] if raises else view.node))
     else:
         res.add("C11.R2", base + "no-match raises", ok, "a regex that matched nothing raises ImpossibleMatch before any result is returned" if ok else f"{why}: a regex matching nothing does not (only) raise ImpossibleMatch before the conversion result is returned", where(view, raises[0] if raises else view.node), kind="dominance")
+
+
+def _flag_on_class(repo: Repo, ci, attr: str):  # noqa: ANN001
+    """Value of the routing flag `attr` for instances of class `ci`, as far as the class alone determines it:
+    ("const", bool, node) | ("depends", text, node) - it is computed from the instance's state | ("unknown", why, node)."""
+    from .c11_lib import fold_const
+
+    for c in repo.mro(ci):
+        m = c.methods.get(attr)
+        if m is not None:
+            if m.is_abstract:
+                continue
+            if not (m.is_property or "cached_property" in m.decorators):
+                return "unknown", f"{c.name}.{attr} is a method, not a property / attribute", m.node
+            fn = Fn(repo, m)
+            me = m.param_names[0] if m.param_names else "self"
+            rets = [r for r in own_nodes(m.node) if isinstance(r, ast.Return)]
+            if not rets:
+                return "unknown", f"{c.name}.{attr} returns nothing", m.node
+            vals = []
+            for r in rets:
+                v = fold_const(fn.expand(r.value)) if r.value is not None else ast.Constant(value=None)
+                if isinstance(v, ast.Constant):
+                    vals.append(bool(v.value))
+                    continue
+                if any(isinstance(x, ast.Name) and x.id == me for x in ast.walk(v)) or any(isinstance(x, ast.Name) and x.id == me for x in ast.walk(r.value)):
+                    return "depends", norm(r.value, 70), r
+                return "unknown", f"`{norm(r.value, 60)}` in {c.name}.{attr} is not a constant", r
+            if len(set(vals)) == 1:
+                return "const", vals[0], rets[0]
+            tests = [t for t in own_nodes(m.node) if isinstance(t, (ast.If, ast.IfExp))]
+            dep = next((t for t in tests if any(isinstance(x, ast.Name) and x.id == me for x in ast.walk(t.test))), None)
+            if dep is not None:
+                return "depends", norm(dep.test, 70), dep
+            return "unknown", f"{c.name}.{attr} returns different constants", rets[0]
+        if attr in c.class_attrs:
+            v = fold_const(c.class_attrs[attr])
+            if isinstance(v, ast.Constant):
+                return "const", bool(v.value), c.class_attrs[attr]
+            return "unknown", f"{c.name}.{attr} = `{norm(c.class_attrs[attr], 50)}` is not a constant", c.class_attrs[attr]
+        if attr in c.ann_attrs:
+            ann = c.ann_attrs[attr]
+            default = next((n.value for n in c.node.body if isinstance(n, ast.AnnAssign) and isinstance(n.target, ast.Name) and n.target.id == attr and n.value is not None), None)
+            if default is not None and isinstance(fold_const(default), ast.Constant) and ("ClassVar" in norm(ann) or not c.is_dataclass):
+                return "const", bool(fold_const(default).value), default
+            return "unknown", f"{c.name}.{attr} is a field that every instance may set differently", c.node
+        # set once in the constructor
+        init = c.methods.get("__init__") or c.methods.get("__post_init__")
+        if init is not None:
+            sets = [n for n in own_nodes(init.node) if isinstance(n, ast.Assign) and any(isinstance(t, ast.Attribute) and t.attr == attr and isinstance(t.value, ast.Name) and t.value.id == init.param_names[0] for t in n.targets)]
+            if sets:
+                fi_ = Fn(repo, init)
+                vs = [fold_const(fi_.expand(n.value)) for n in sets]
+                if all(isinstance(v, ast.Constant) for v in vs) and len({bool(v.value) for v in vs}) == 1 and not flatten(fi_.conds_all(sets[0])):
+                    return "const", bool(vs[0].value), sets[0]
+                if any(isinstance(x, ast.Name) and x.id in init.param_names for n in sets for x in ast.walk(n.value)):
+                    return "depends", norm(sets[0].value, 70), sets[0]
+                return "unknown", f"{c.name}.{attr} is set in the constructor to `{norm(sets[0].value, 50)}`", sets[0]
+    return "unknown", f"no definition of `{attr}` found for {ci.name}", ci.node
+
+
+def _routing(repo: Repo, res: Result, view: FuncInfo) -> None:
+    """Premise of C11.R2: whether a filter is converted is decided by the flag the conversion reads - for the filters that
+    have_name_matching / have_name_containing create (ModuleNameRegexFilter, C11.R3) that flag must be True whatever the pattern
+    text is, and for the name filters the conversion puts in their place it must be False (or the expansion would be expanded again).
+    A test on the class itself (`isinstance`) routes by construction."""
+    attrs = sorted({n.attr for n in own_nodes(view.node) if isinstance(n, ast.Attribute) and isinstance(n.ctx, ast.Load) and n.attr == "identifier_is_regex"})
+    base = repo.cls(EVAL_ARCH, "ModuleFilter")
+    by_name = {c.name: c for c in [base, *repo.subclasses(base)]}
+    for cname, want in (("ModuleNameRegexFilter", True), ("ModuleNameFilter", False)):
+        ci = by_name.get(cname)
+        if ci is None:
+            if want:
+                raise AnalysisError(f"{cname} not found")
+            continue
+        for c in [ci, *[x for x in repo.subclasses(ci) if x is not ci]]:
+            if not want and c is not ci:
+                continue
+            key = f"{c.module.relpath}::{c.name}::{'regex filters are routed to the conversion' if want else 'name filters are passed on unconverted'}"
+            if not attrs:
+                res.add("C11.R2", key, True, "the conversion tells regex filters from others by their class", where(view, view.node), kind="structural")
+                continue
+            for attr in attrs:
+                kind, val, node = _flag_on_class(repo, c, attr)
+                loc = f"{c.module.relpath}:{getattr(node, 'lineno', 0)}"
+                if kind == "const":
+                    ok = val is want
+                    res.add("C11.R2", key, ok, f"`{c.name}.{attr}` is {val} for every instance" if ok else f"`{c.name}.{attr}` is {val} for every instance: " + ("no filter created by have_name_matching / have_name_containing is ever converted" if want else "the name filters a regex is replaced by are treated as regexes again"), loc, kind="structural")
+                elif kind == "depends":
+                    res.add("C11.R2", key, False, f"`{c.name}.{attr}` is `{val}`: whether a filter " + ("created by have_name_matching / have_name_containing reaches the conversion depends on its pattern text, not on its class - a pattern without special characters (e.g. `paylib`) is passed on as a plain module name and no longer stands for all modules it matches, and raises no ImpossibleMatch when it matches nothing" if want else "that names a module is converted depends on its text: a named module is expanded like a regex"), loc, kind="structural")
+                else:
+                    res.undecide("C11.R2", key, val, loc)
 
 
 def _raised_class(fn: Fn, exc: ast.AST) -> str:
